@@ -19,7 +19,8 @@ EXPLANATION = (
     "remains; next_power_2 is the least power of two >= its argument (structural). C02.1-3 for each creator's _traverse: "
     "the tree mirrors the sorted directory listing without filter, leaf length = getsize of that very path, empty files "
     "return a length-only leaf before any hashing, and the piece-layers entry is keyed by the root, holds the layer and is "
-    "stored iff size > piece length (strict).")
+    "stored iff size > piece length (strict). C02.5 after assembly nothing in the package removes, filters or replaces "
+    "info/'file tree' or 'piece layers' (points-to over the metafile dictionary; an order-only, possibly deep, sorted copy is accepted).")
 RULE_TEXT = "one obligation per fact of each hasher / creator / helper; non-trivial = normal form obtained through reaching definitions, helper inlining or CFG dominance"
 
 
@@ -43,11 +44,13 @@ def run(ctx):
         spec = dict(CF.SPEC_TRAVERSE)
         spec["hasher"] = "%s(path, self.piece_length)" % hname
         spec["layer.value"] = "hasher.piece_layer"
-        rid = {"size": "C02.1", "dir.order": "C02.1", "dir.loop": "C02.1", "dir.return": "C02.1", "leaf": "C02.1", "hasher": "C02.1",
+        rid = {"single.key": "C02.1", "entry.call": "C02.1", "size": "C02.1", "dir.order": "C02.1", "dir.loop": "C02.1", "dir.return": "C02.1", "leaf": "C02.1", "hasher": "C02.1",
                "empty.leaf": "C02.2", "empty.length": "C02.2", "layer.member": "C02.3", "layer.key": "C02.3", "layer.value": "C02.3"}
         for k in spec:
             m += HF.judge_facts(ctx, rid[k], cname + "._traverse", F, {k: spec[k]}, CF.ACCEPT_TRAVERSE, why="BEP 52")
     ctx.floor("creator traversal facts", 30, m)
+    from .postassembly import integrity
+    integrity(ctx, "C02.5", {("info", "file tree"), ("piece layers",)}, "v2 description (file tree / piece layers)")
 
 
 MUTANTS = MUT_C02
